@@ -476,6 +476,8 @@ func (c *Cholesky) Scale(f float64, orig *Cholesky) {
 	n := orig.SymmetricDim()
 	if c.chol == nil {
 		c.chol = NewTriDense(n, Upper, nil)
+	} else if c.chol.IsEmpty() {
+		c.chol.reuseAsNonZeroed(n, Upper)
 	} else if c.chol.mat.N != n {
 		panic(ErrShape)
 	}
@@ -576,6 +578,8 @@ func (c *Cholesky) SymRankOne(orig *Cholesky, alpha float64, x Vector) (ok bool)
 	if orig != c {
 		if c.chol == nil {
 			c.chol = NewTriDense(n, Upper, nil)
+		} else if c.chol.IsEmpty() {
+			c.chol.reuseAsNonZeroed(n, Upper)
 		} else if c.chol.mat.N != n {
 			panic(ErrShape)
 		}
